@@ -129,9 +129,10 @@ def observe(cfg, xs):
                     obs["int_differs"] = True
             # a sample whose values are whole numbers may arrive as an integer array (0/1 ballots): same answer required
             if all(v.denominator == 1 for v in xs):
-                p3, h3 = make(cfg).test(np.array([int(v) for v in xs], dtype=(np.int8 if cfg.get("paths") else int)))  # 0/1 ballots are often stored in small integer types
-                h3 = [float(v) for v in np.asarray(h3, dtype=float).ravel()]
-                obs["int_differs"] = obs["int_differs"] or not (feq(float(p3), obs["p"]) and len(h3) == len(obs["hist"]) and all(feq(a, b) for a, b in zip(h3, obs["hist"])))
+                for dt in ((np.int8 if cfg.get("paths") else int), np.uint8):  # 0/1 ballots are often stored in small (signed or unsigned) integer types
+                    p3, h3 = make(cfg).test(np.array([int(v) for v in xs], dtype=dt))
+                    h3 = [float(v) for v in np.asarray(h3, dtype=float).ravel()]
+                    obs["int_differs"] = obs["int_differs"] or not (feq(float(p3), obs["p"]) and len(h3) == len(obs["hist"]) and all(feq(a, b) for a, b in zip(h3, obs["hist"])))
         except Exception as e:  # noqa
             obs["exc"] = f"{type(e).__name__}: {str(e)[:80]}"
         if cfg["test"] == "alpha_mart":
